@@ -33,3 +33,52 @@ func VerifC06_MapperFirstWriter() {
 	nd.Assert(got.Value == v1 && got.Source == s1, "first-writer-wins")
 	nd.Reach("end")
 }
+
+// VerifC06_MapperSeveralKeys: two writers, each declaring a symbolic subset of three keys with
+// symbolic values, under every iteration order of their annotation maps: for every key the first
+// writer that declares it wins; a key only the second writer declares is applied whatever happens
+// to its other keys; the conflicts reported are exactly the keys both declare with different values.
+func VerifC06_MapperSeveralKeys() {
+	mapper := NewMapBuilder(zzC06Logger{}, map[string]string{}).NewMapper()
+	link := hatypes.CreateHostPathLink("d.local", "/", hatypes.MatchBegin)
+	keys := []string{ingtypes.BackBalanceAlgorithm, ingtypes.BackMaxconnServer, ingtypes.BackProxyBodySize}
+	s1 := &Source{Namespace: "ns", Name: "ing1", Type: convtypes.ResourceIngress}
+	s2 := &Source{Namespace: "ns", Name: "ing2", Type: convtypes.ResourceIngress}
+	a1, a2 := map[string]string{}, map[string]string{}
+	for _, k := range keys {
+		if nd.Bool("w1.has") {
+			a1[k] = nd.String("v1", 1, "ab")
+		}
+		if nd.Bool("w2.has") {
+			a2[k] = nd.String("v2", 1, "ab")
+		}
+	}
+	c1 := mapper.AddAnnotations(s1, link, a1)
+	c2 := mapper.AddAnnotations(s2, link, a2)
+	nd.Assert(len(c1) == 0, "first-writer-never-conflicts")
+	want := 0
+	cfg := mapper.GetConfig(link)
+	for _, k := range keys {
+		v1, has1 := a1[k]
+		v2, has2 := a2[k]
+		got := cfg.Get(k)
+		switch {
+		case has1:
+			nd.Assert(got.Value == v1 && got.Source == s1, "first-writer-wins")
+			if has2 && v2 != v1 {
+				want++
+				found := false
+				for _, c := range c2 {
+					found = found || c == k
+				}
+				nd.Assert(found, "conflict-reported-for-the-key")
+			}
+		case has2:
+			nd.Assert(got.Value == v2 && got.Source == s2, "undisputed-key-of-the-later-writer-applies")
+		default:
+			nd.Assert(got.Source == nil, "undeclared-key-stays-unset")
+		}
+	}
+	nd.Assert(len(c2) == want, "conflicts-are-exactly-the-disputed-keys")
+	nd.Reach("end")
+}
